@@ -1,4 +1,5 @@
 import MlModel.Model.PipeLib
+import MlModel.Model.PipeFnless
 /-!
 # Witnesses for the open findings of C08 (concrete instances, evaluated by the kernel)
 
@@ -11,6 +12,10 @@ import MlModel.Model.PipeLib
   sink (`write*; close`), every schedule closes the sink twice and some schedule writes after a
   close.  (The threads themselves are not part of the `Pipe` model: this is the two-worker
   interleaving of the per-worker traces the model predicts.)
+* **C08_fnless_unwrap_witness** (no finding: the seeded regression C08-m3, `_identity_fn(*x) = x[0] if len(x) == 1
+  else x`): with that function `select('a')` stores `5` for the value `(5,)`, `(7, 8)` for `((7, 8),)`, raises for
+  `()`, while the specification `Ref.routeValues` stores the values themselves — `C08_fnless_identity` is false for
+  the variant exactly on 1-tuples and 0-tuples, and true on the values the pinned tests move (ints, lists, 2-tuples).
 Replayed on the real code by `harness/corpus/C08_findings.jsonl` (the first; the repaired F-C08-index0 case stays in the corpus as a regression test) and found by the
 `num_threads=2` cases of the check (the third).
 -/
@@ -36,6 +41,31 @@ theorem C08_assign_rebatch_witness :
     (Impl.run false [assignAdd1 2] threeRows).err.isNone = true ∧
     (Impl.run false [assignAdd1 0] threeRows).out.map (rows "o") = [some 3] := by
   decide +kernel
+
+/-! ### the unwrapping `_identity_fn` (seeded regression C08-m3) -/
+
+/-- `select(k_in, output_keys=k_out)` built on the unwrapping variant of `_identity_fn` -/
+def selUnwrap : Op :=
+  { kind := .select, inKeys := [.name "a"], outKeys := [.key (.name "a")], fn := identityFnUnwrap }
+
+/-- what the variant stores vs what the specification says, on one selected value -/
+def unwrapGot (v : Val) : Ev Val := (Impl.callAndRoute selUnwrap 0 .null [v]).1
+def unwrapWant (v : Val) : Except ErrKind Val := Ref.routeValues .null selUnwrap.outKeys [v]
+
+theorem C08_fnless_unwrap_witness :
+    -- a 1-tuple is unwrapped: `{'a': (5,)}` becomes `{'a': 5}`, a nested `((7, 8),)` becomes `(7, 8)`
+    unwrapGot (.tuple [.int 5]) = .ok (.dict [("a", .int 5)]) ∧
+    unwrapWant (.tuple [.int 5]) = .ok (.dict [("a", .tuple [.int 5])]) ∧
+    unwrapGot (.tuple [.tuple [.int 7, .int 8]]) = .ok (.dict [("a", .tuple [.int 7, .int 8])]) ∧
+    unwrapWant (.tuple [.tuple [.int 7, .int 8]]) = .ok (.dict [("a", .tuple [.tuple [.int 7, .int 8]])]) ∧
+    -- the empty tuple raises (no output for the one key)
+    unwrapGot (.tuple []) = .error { kind := .value } ∧
+    unwrapWant (.tuple []) = .ok (.dict [("a", .tuple [])]) ∧
+    -- ints, lists of length 1 and 2-tuples are routed alike: the values the pinned tests move
+    unwrapGot (.int 5) = liftErr (unwrapWant (.int 5)) ∧
+    unwrapGot (.list [.int 3]) = liftErr (unwrapWant (.list [.int 3])) ∧
+    unwrapGot (.tuple [.int 1, .int 2]) = liftErr (unwrapWant (.tuple [.int 1, .int 2])) :=
+  ⟨rfl, rfl, rfl, rfl, rfl, rfl, rfl, rfl, rfl⟩
 
 /-! ### two workers, one sink -/
 
